@@ -50,7 +50,7 @@ def specs(rng, tier, wid, nw, env):
             for rep in range(2 if q else 6):
                 k += 1
                 if k % nw == wid: yield ('arith', m, sz, rng.choice(['w', 'w=a', 'w=b', 'a=b', 'w=a=b']), rng.getrandbits(48))
-    N = 3000 if q else 100000
+    N = 6000 if q else 400000
     for i in range(N):
         c = rng.random()
         if c < 0.45: yield ('arith', rng.choice(MODES), rng.choice([1, 1, 2, 3, 5]), rng.choice(['w', 'w', 'w=a', 'w=b', 'a=b', 'w=a=b']), rng.getrandbits(48))
